@@ -191,8 +191,28 @@ Definition reachable_frags (D : opdoc) (ss : selset) : list fragdef :=
 
 Fixpoint strip_nonnull (t : ty) : ty := match t with TNonNull i => strip_nonnull i | _ => t end.
 
+(** Int is a signed 32-bit integer (3.5.1): the integer an IntValue lexeme denotes must lie in that range *)
+Definition sp_digit (c : N) : option Z := if N.leb 48 c && N.leb c 57 then Some (Z.of_N c - 48)%Z else None.
+Fixpoint sp_digits (acc : Z) (l : str) : option Z :=
+  match l with
+  | [] => Some acc
+  | c :: r => match sp_digit c with Some d => sp_digits (acc * 10 + d)%Z r | None => None end
+  end.
+Definition lexeme_int (l : str) : option Z :=
+  match l with
+  | 45%N :: ((_ :: _) as r) => option_map Z.opp (sp_digits 0 r)
+  | 43%N :: ((_ :: _) as r) => sp_digits 0 r
+  | 45%N :: [] | 43%N :: [] | [] => None
+  | _ => sp_digits 0 l
+  end.
+Definition int32_lexeme (l : str) : bool :=
+  match lexeme_int l with
+  | Some z => Z.leb (-2147483648) z && Z.leb z 2147483647
+  | None => false
+  end.
+
 Definition builtin_scalar_ok (name : str) (v : value) : bool :=
-  if str_eqb name (s "Int") then match v with VInt _ _ => true | _ => false end
+  if str_eqb name (s "Int") then match v with VInt _ lexeme => int32_lexeme lexeme | _ => false end
   else if str_eqb name (s "Float") then match v with VInt _ _ | VFloat _ _ => true | _ => false end
   else if str_eqb name (s "String") then match v with VString _ _ => true | _ => false end
   else if str_eqb name (s "Boolean") then match v with VBool _ _ => true | _ => false end
